@@ -66,7 +66,7 @@ theorem decodesAs_all (x : Spec.Json) : DecodesAs x := by
     exact ⟨_, rfl, rfl⟩
   · -- array
     intro xs ih hs pos off data fuel e hp hoff hb hsl hsm he hfuel
-    simp only [covered, Bool.and_eq_true, decide_eq_true_eq] at hs
+    simp only [covered] at hs
     obtain ⟨hpa, hp4⟩ := padTo4_aligned pos
     rw [encValue_arr] at hb hsl hsm he ⊢
     simp only [List.length_append, zeros_length] at hb hsm ⊢
@@ -82,7 +82,7 @@ theorem decodesAs_all (x : Spec.Json) : DecodesAs x := by
         subst this
         exact ⟨_, parseContainer_empty_arr _ _, rfl⟩
       · obtain ⟨rs, h1, h2, h3⟩ := parse_arrBytes xs (pos + Spec.padTo4 pos + 4 + 4 * xs.length) false f
-          (by omega) ih hs.2 (by omega) hs.1 (by omega) (by omega)
+          (by omega) ih hs (by omega) (by omega) (by omega)
         refine ⟨_, h1, ?_⟩
         show Spec.JView.arr (toViewList rs) = Spec.JView.arr (Spec.viewList xs)
         rw [h3]
@@ -106,9 +106,9 @@ theorem decodesAs_all (x : Spec.Json) : DecodesAs x := by
         exact ⟨_, parseContainer_empty_obj _, rfl⟩
       · obtain ⟨rs, h1, h2, h3⟩ := parse_objBytes kvs
           (pos + Spec.padTo4 pos + 4 + 8 * kvs.length + (bodyOf (keyChildren (kvs.map (·.1)))).length) f
-          (by omega) ih hs.2 (by omega) hs.1.1 (by omega) (by omega)
+          (by omega) ih hs.2 (by omega) (by omega) (by omega)
         refine ⟨_, h1, ?_⟩
-        rw [buildMap_nodup rs (by rw [h3]; exact hs.1.2)]
+        rw [buildMap_nodup rs (by rw [h3]; exact hs.1)]
         show Spec.JView.obj (toViewKvs rs) = Spec.JView.obj (Spec.viewKvs kvs)
         rw [h2]
   · intro x hx; simp at hx
@@ -122,20 +122,6 @@ theorem decodesAs_all (x : Spec.Json) : DecodesAs x := by
     · subst e; exact ihp
     · exact ihps y m
   · intro k v ihv; exact ihv
-
-mutual
-/-- the implementation's limit: no container has more than 10 000 elements / pairs -/
-def countsOK : Spec.Json → Bool
-  | .arr xs => decide (xs.length ≤ 10000) && countsOKList xs
-  | .obj kvs => decide (kvs.length ≤ 10000) && countsOKKvs kvs
-  | _ => true
-def countsOKList : List Spec.Json → Bool
-  | [] => true
-  | x :: xs => countsOK x && countsOKList xs
-def countsOKKvs : List (Bytes × Spec.Json) → Bool
-  | [] => true
-  | (_, v) :: rest => countsOK v && countsOKKvs rest
-end
 
 /-! ### whole documents -/
 
@@ -154,7 +140,7 @@ theorem roundtrip_scalar (j : Spec.Json) (hc : j.isContainer = false) (hs : cove
   unfold parseJSONB
   show (parseContainer (parseJSONBFuel _) _).map JV.toView = _
   obtain ⟨rs, h1, h2, h3⟩ := parse_arrBytes [j] 12 true (arrBytes (childEncs 12 [j]) true).length (by simp)
-    (fun x _ => decodesAs_all x) (by simp [coveredList, hs]) (by simp) (by simp) hsize (Nat.le_refl _)
+    (fun x _ => decodesAs_all x) (by simp [coveredList, hs]) (by simp) hsize (Nat.le_refl _)
   rw [h1]
   match rs, h2, h3 with
   | [r], _, h3 =>
@@ -168,7 +154,7 @@ theorem roundtrip_array (xs : List Spec.Json) (hs : covered (.arr xs) = true)
   rw [e, encValue_arr] at hsize ⊢
   have hp : Spec.padTo4 4 = 0 := rfl
   simp only [hp, zeros, List.replicate_zero, List.nil_append, Nat.add_zero] at hsize ⊢
-  simp only [covered, Bool.and_eq_true, decide_eq_true_eq] at hs
+  simp only [covered] at hs
   unfold parseJSONB
   show (parseContainer (parseJSONBFuel _) _).map JV.toView = _
   by_cases h0 : xs.length = 0
@@ -178,7 +164,7 @@ theorem roundtrip_array (xs : List Spec.Json) (hs : covered (.arr xs) = true)
     rfl
   · obtain ⟨rs, h1, h2, h3⟩ := parse_arrBytes xs (4 + 4 + 4 * xs.length) false
       (arrBytes (childEncs (4 + 4 + 4 * xs.length) xs) false).length (by omega)
-      (fun x _ => decodesAs_all x) hs.2 (by omega) hs.1 hsize (Nat.le_refl _)
+      (fun x _ => decodesAs_all x) hs (by omega) hsize (Nat.le_refl _)
     rw [h1]
     show Except.ok (Spec.JView.arr (toViewList rs)) = Except.ok (Spec.JView.arr (Spec.viewList xs))
     rw [h3]
@@ -199,8 +185,8 @@ theorem roundtrip_object (kvs : List (Bytes × Spec.Json)) (hs : covered (.obj k
     rfl
   · obtain ⟨rs, h1, h2, h3⟩ := parse_objBytes kvs
       (4 + 4 + 8 * kvs.length + (bodyOf (keyChildren (kvs.map (·.1)))).length) _
-      (by omega) (fun kv _ => decodesAs_all kv.2) hs.2 (by omega) hs.1.1 hsize (Nat.le_refl _)
-    rw [h1, buildMap_nodup rs (by rw [h3]; exact hs.1.2)]
+      (by omega) (fun kv _ => decodesAs_all kv.2) hs.2 (by omega) hsize (Nat.le_refl _)
+    rw [h1, buildMap_nodup rs (by rw [h3]; exact hs.1)]
     show Except.ok (Spec.JView.obj (toViewKvs rs)) = Except.ok (Spec.JView.obj (Spec.viewKvs kvs))
     rw [h2]
 
